@@ -3,7 +3,7 @@ of a bidirectional reference inconsistently."""
 import os
 import shutil
 import tempfile
-from . import storecheck, common, models, inconsistent
+from . import storecheck, common, models, inconsistent, crossworld
 from .c08 import unproxy
 
 CHECKS = ('c01',)
@@ -63,8 +63,11 @@ def load_pass(ctx):
 def run(ctx):
     storecheck.run(ctx, CHECKS)
     load_pass(ctx)
+    crossworld.symmetry_pass(ctx)
     ctx.rule += ('; plus saved XMI / JSON documents with one end of a bidirectional reference rewritten (another valid target, a '
-                 'target dropped, a target given twice), loaded: symmetry of every opposite pair in whatever loads')
+                 'target dropped, a target given twice), loaded: symmetry of every opposite pair in whatever loads; plus models spread over 2-3 '
+                 'XMI / JSON resources, saved, reloaded in a fresh resource set with every reference followed: bidirectional references '
+                 're-pointed / extended / reduced with the instances, symmetry (proxies standing for their targets) after every call')
 
 
 def search(ctx):
